@@ -120,6 +120,21 @@ fn crafted_inference_programs() -> Vec<String> {
         v.push(format!("pub fn main(x: u8) -> u8 {{ let t: {ty} = {expr}; x }}\n"));
         v.push(format!("fn f(p: {ty}) -> u8 {{ 0u8 }}\npub fn main(x: u8) -> u8 {{ f({expr}) + x }}\n"));
     }
+    // a pattern that names another enum than the one it is matched against (same variant names)
+    for other in ["enum B { Off, On(u8) }", "enum B { On(u8), Off }", "enum B { Off, On(u16) }", "enum B { Off, On(u8), Extra }"] {
+        let defs = format!("enum A {{ Off, On(u8) }}\n{other}\n");
+        v.push(format!("{defs}pub fn main(x: u8) -> u8 {{ let s = A::On(x); match s {{ B::Off => 0u8, B::On(l) => 1u8 }} }}\n"));
+        v.push(format!("{defs}pub fn main(x: u8) -> u8 {{ let s = A::On(x); match s {{ A::Off => 0u8, B::On(l) => 1u8 }} }}\n"));
+        v.push(format!("{defs}pub fn main(x: u8) -> u8 {{ let s = A::On(x); match s {{ B::Off => 0u8, _ => 1u8 }} }}\n"));
+        v.push(format!("{defs}pub fn main(x: u8) -> u8 {{ let s = (A::On(x), true); match s {{ (B::On(l), true) => 0u8, _ => 1u8 }} }}\n"));
+        v.push(format!("{defs}pub fn main(x: u8) -> u8 {{ let mut n = 0u8; for (B::On(l), k) in [(A::On(x), 1u8)] {{ n = n + k; }} n }}\n"));
+    }
+    for (da, db) in [("enum A { V(u8) }", "enum B { V(u8) }"), ("enum A { V(u8, bool) }", "enum B { V(u8, bool) }"), ("enum A { V }", "enum B { V }")] {
+        let (pat, val) = if da.contains("(u8, bool)") { ("B::V(v, w)", "A::V(x, true)") } else if da.contains("(u8)") { ("B::V(v)", "A::V(x)") } else { ("B::V", "A::V") };
+        v.push(format!("{da}\n{db}\npub fn main(x: u8) -> u8 {{ let w = {val}; let {pat} = w; x }}\n"));
+        v.push(format!("{da}\n{db}\npub fn main(x: u8) -> u8 {{ for {pat} in [{val}] {{ }} x }}\n"));
+        v.push(format!("{da}\n{db}\nstruct S {{ e: A }}\npub fn main(x: u8) -> u8 {{ let s = S {{ e: {val} }}; let S {{ e: {pat} }} = s; x }}\n"));
+    }
     // a definition that is dropped because a later one has the same name must not hide its errors
     for prog in [
         "fn f(a: u8) -> u8 { a + undefined }\nfn f(a: u8) -> u8 { a }\npub fn main(x: u8) -> u8 { f(x) }\n",
@@ -142,7 +157,7 @@ pub fn run(ctx: &Ctx) -> i32 {
         let mut st = St::default();
         for (i, src) in crafted.iter().enumerate() {
             if i % WORKERS == w {
-                judge(ctx, &mut st, "DisagreementThroughUnannotatedBinding", "(crafted)", src);
+                judge(ctx, &mut st, "CraftedIllTypedProgram", "(crafted)", src);
             }
         }
         while !ctx.out_of_time() {
